@@ -139,3 +139,29 @@ def checkFeasibleG (nrows : Nat) (atol rtol : Rat) (cs : List CEval) (r : Nat) :
   if nrows ≠ 1 then none else some (checkFeasible atol rtol cs r)
 
 end Feas
+
+namespace Feas
+
+/-! ### labelled sample arrays: the gather step of `_cyExpression._energies` -/
+
+/-- the value a sample `(row, sampleLabels)` gives to label `l` (0 when the sample has no such column) -/
+def sampleVal (sampleLabels : List Label) (row : List Rat) (l : Label) : Rat :=
+  match Cqm.findIdx l sampleLabels 0 with
+  | some j => row.getD j 0
+  | none => 0
+
+/-- `_energies`: `reindex[i] = labels.index(parent.variables.at(expression.variables()[i]))`, `samples[:, reindex]` — the
+    sub-sample of one row in the expression's private order -/
+def gatherRow (modelLabels sampleLabels : List Label) (row : List Rat) (e : Expr) : List Rat :=
+  e.vars.map fun g => sampleVal sampleLabels row (modelLabels.getD g (.int 0))
+
+/-- a model variable of the expression that the sample does not name: `labels.index` raises `ValueError` -/
+def gatherMissing (modelLabels sampleLabels : List Label) (e : Expr) : Bool :=
+  e.vars.any fun g => (Cqm.findIdx (modelLabels.getD g (.int 0)) sampleLabels 0).isNone
+
+/-- `_energies` for one row of a labelled sample array, as coded: gather, then `abc::energy` (or the offset for an expression
+    without variables) -/
+def exprEnergyOfSample (modelLabels sampleLabels : List Label) (row : List Rat) (e : Expr) : Rat :=
+  if e.vars.length = 0 then e.qb.off else qbEnergy e.qb (fun i => (gatherRow modelLabels sampleLabels row e).getD i 0)
+
+end Feas
